@@ -9,8 +9,12 @@
 (* information; the output must satisfy  OutInfo(out) = ExpInfo(in).        *)
 (***************************************************************************)
 EXTENDS GeoDoc
-KnownKeys == {"type", "coordinates", "geometries", "geometry", "features"}
-Foreign(d) == SelectSeq(Members(d), LAMBDA m : m[1] \notin KnownKeys)
+\* the required member of an object's own type; every other member except "type" is a foreign member - also one that is named
+\* like the required member of ANOTHER type (the pinned code drops those: known finding KF-C06-alien-members)
+OwnKey(d) == LET t == Get(d, "type") IN
+             IF t[1] # "s" THEN "coordinates"
+             ELSE CASE t[2] = "GeometryCollection" -> "geometries" [] t[2] = "Feature" -> "geometry" [] t[2] = "FeatureCollection" -> "features" [] OTHER -> "coordinates"
+Foreign(d) == SelectSeq(Members(d), LAMBDA m : m[1] \notin {"type", OwnKey(d)})
 DimsOf(pos) == MinI(4, Len(Items(pos))) - 2
 \* a position written with exactly 2+dims ordinates
 NormPos(pos, dims) == Arr([i \in 1..(2 + dims) |-> IF i <= MinI(4, Len(Items(pos))) THEN Items(pos)[i] ELSE Num(0)])
@@ -55,5 +59,5 @@ ExpMembers(d) == IF Foreign(d) = <<>> THEN None ELSE Obj(Foreign(d))
 \* IsPoint(): z is the third ordinate of a Point (0 when it has none)
 ExpZ(d) == LET c == Get(d, "coordinates") IN IF Len(Items(c)) >= 3 THEN Items(c)[3] ELSE Num(0)
 \* known keys appear once each in the output
-KnownOnce(d) == \A k \in KnownKeys : Cardinality({i \in 1..Len(Members(d)) : Members(d)[i][1] = k}) <= 1
+KnownOnce(d) == \A k \in {"type", "coordinates", "geometries", "geometry", "features"} : Cardinality({i \in 1..Len(Members(d)) : Members(d)[i][1] = k}) <= 1
 =============================================================================
